@@ -501,6 +501,19 @@ def edit_distance(a, b, budget: int = 1, _qfree: bool = False) -> Optional[int]:
         return 1 if (not isinstance(a, tuple) and not isinstance(b, tuple)) else None
     if _is_expr_leaf(a) and _is_expr_leaf(b):
         return 1
+    # `isinstance(x, T)` <-> `type(x) is T` / `type(x) == T`: the exact-type test rejects instances of subclasses of T
+    def _exact_type(t):
+        if t and t[0] == "cmp" and t[1] in ("is", "==") and isinstance(t[2], tuple) and t[2][:3] == ("call", None, "type") and len(t[2][3]) == 1:
+            return (t[2][3][0], t[3])
+        return None
+
+    def _inst(t):
+        if t and t[:3] == ("call", None, "isinstance") and len(t[3]) == 2:
+            return (t[3][0], t[3][1])
+        return None
+
+    if (_exact_type(a) is not None and _exact_type(a) == _inst(b)) or (_exact_type(b) is not None and _exact_type(b) == _inst(a)):
+        return 1
     # two roles exchanged everywhere (self <-> argument)
     names: set = set()
     _name_leaves(a, names)
